@@ -18,6 +18,7 @@ import VerifModel.Model.FigProps
         reply : the flags (other than <flag> and those that documentedly depend on it) whose property
                 differs between the figure with and without <flag>, `,`-separated (`-` if none)
 
+    figwired <plot>     reply: the flags whose property is shown on the plot kind (PlotKinds.shown, from the wiring tables)
     figroute <flag>     reply: names of the properties the flag reaches in the regenerated tables
 -/
 namespace VerifModel.Driver.Fig
@@ -49,6 +50,11 @@ def handle (args : List String) : Option String :=
         o != flag && o != "-f" && !(Spec.Appearance.dependsOn.contains (o, flag))
       let d := differing c c' keep
       some (if d.isEmpty then "-" else ",".intercalate d)
+  | ["figwired", plot] =>
+      -- the documented flags whose property the model of the code (composed from the regenerated wiring tables:
+      -- PlotKinds.shown) shows on this plot kind
+      let fl := (Spec.Appearance.table.filter fun e => PlotKinds.shown plot e.field).map (·.flag)
+      some (if (Spec.Appearance.kindOf plot).isNone then "ERR" else if fl.isEmpty then "-" else ",".intercalate fl)
   | ["figroute", flag] =>
       let r := route flag
       some (if r.isEmpty then "-" else ",".intercalate (r.map (·.name)))
